@@ -978,3 +978,73 @@ func TestVerifC25Concurrent(t *testing.T) {
 		}
 	}
 }
+
+// ---------------------------------------------------------------------------
+// witness of the listed finding c25InvSig
+
+// c25Gate is a filter action that parks the calling goroutine (used by the
+// witness only, to build the schedule deterministically).
+type c25Gate struct {
+	armed   atomic.Bool
+	entered chan struct{}
+	release chan struct{}
+}
+
+func (g *c25Gate) Do(p *bnet.Prefix, pa *route.Path) actions.Result {
+	if g.armed.Swap(false) {
+		close(g.entered)
+		<-g.release
+	}
+	return actions.Result{Path: pa}
+}
+func (g *c25Gate) Equal(actions.Action) bool { return false }
+
+// TestVerifC25WitnessLockOrderInversion: goroutine A is inside
+// LocRIB.AddPath (holds LocRIB.mu) and about to call AdjRIBOut.AddPath;
+// goroutine B calls AdjRIBOut.ReplaceFilterChain (takes AdjRIBOut.mu, then
+// LocRIB.RefreshClient wants LocRIB.mu). A then wants AdjRIBOut.mu: deadlock.
+func TestVerifC25WitnessLockOrderInversion(t *testing.T) {
+	rib := locRIB.New("c25w")
+	gate := &c25Gate{entered: make(chan struct{}), release: make(chan struct{})}
+	chain := filter.Chain{filter.NewFilter("gate", []*filter.Term{filter.NewTerm("g", nil, []actions.Action{gate, actions.NewAcceptAction()})})}
+	sa := routingtable.SessionAttrs{RouterID: 1, PeerIP: bnet.IPv4FromOctets(172, 17, 0, 1).Dedup(), LocalIP: bnet.IPv4FromOctets(172, 16, 0, 1).Dedup(),
+		Type: route.BGPPathType, IBGP: false, LocalASN: 65000, PeerASN: 65010}
+	out := adjRIBOut.New(rib, sa, chain)
+	out.Register(&c25Client{})
+	rib.Register(out)
+	gate.armed.Store(true)
+	a := kit.GoOp(func() { rib.AddPath(c25Pfxs[1], c25Path(c25WorkerIP(0), 1, true)) })
+	select {
+	case <-gate.entered:
+	case <-time.After(20 * time.Second):
+		kit.ExitInconclusive("C25 witness: LocRIB.AddPath did not reach the export filter of the AdjRIBOut")
+	}
+	b := kit.GoOp(func() { out.ReplaceFilterChain(filter.NewAcceptAllFilterChain()) })
+	// wait until B is parked in LocRIB.RefreshClient (it then holds AdjRIBOut.mu)
+	parked := false
+	for i := 0; i < 400 && !parked; i++ {
+		for _, g := range kit.ParseDump(kit.Stacks()) {
+			if g.IsOp && strings.HasPrefix(g.State, "sync.RWMutex.RLock") {
+				for _, fn := range g.Funcs {
+					if strings.HasSuffix(fn, "locRIB.(*LocRIB).RefreshClient") {
+						parked = true
+					}
+				}
+			}
+		}
+		select {
+		case <-b:
+			i = 400 // ReplaceFilterChain returned: no inversion any more
+		case <-time.After(10 * time.Millisecond):
+		}
+	}
+	close(gate.release)
+	rep := kit.WaitOps([]<-chan struct{}{a, b}, 3*time.Second, time.Second)
+	if rep == nil {
+		return
+	}
+	if !rep.Confirmed {
+		kit.ExitInconclusive("C25 witness: %s", rep.Reason)
+	}
+	t.Fatalf("deadlock %s: LocRIB.AddPath holds LocRIB.mu and waits for AdjRIBOut.mu, AdjRIBOut.ReplaceFilterChain holds AdjRIBOut.mu and waits for LocRIB.mu (blocked in %v)", rep.Sig("C25"), rep.Frames)
+}
